@@ -88,3 +88,49 @@ LEVEL_NOTE = {
     "C14": "Trusted: symgo, z3. crypto/md5 is an uninterpreted function.",
     "C20": "Trusted: symgo. Programs longer than the bound and constructor parameters above 3 are outside the claim.",
 }
+
+# ---- texts as of the end of the build (they replace the earlier ones above) ----
+LEVEL_TEXT.update({
+ "C01": "Bounded model checking of the real LockDB.Lock/UnLock (and everything they reach) by symbolic execution: the grant rule is asserted at every new hold for every command of the core subset, from every state of a bounded shape (<=3 holders, <=2 queued requests, symbolic Count/Rcount/priority/depth, any outstanding-hold counter < 2^31), for every 2-operation history from the empty database (3 in the thorough tier), and on keys whose manager lives in the ordinary key map (long-expiry downgrade, fast-slot collision).",
+ "C02": "Bounded model checking: one UNLOCK or re-entrant LOCK with symbolic LockId choice/Rcount/flags from every state of the bounded shape (incl. a free key with a parked request, persisted holders, released-holder tombstones) and on a key with 300 holders; ownership, error codes, cancel-wait and depth arithmetic asserted against snapshots of the real holder list and the reply log.",
+ "C03": "Bounded model checking of reply accounting (exactly one terminal reply per request, at most one EXPRIED, right connection and RequestId, no double free) after one arbitrary step (LOCK/UNLOCK/clock tick through the real sweeps) from every state of the bounded shape; plus scripted connection scenarios through the real protocol objects: re-lock from a second connection, cancel of queued requests, millisecond waits, a text connection around an expiring hold and around PUSH commands, two reconnects under one client id.",
+ "C04": "Bounded model checking: after one arbitrary step (clock steps second by second) from every state of the bounded shape no admissible request is left at the head of the queue, no request overtook an earlier one of equal or higher priority, and the queue's service order is priority first, arrival among equals; wait queues of 3..260 entries crossing the inline/ring/priority-ring representations are drained with exact grant order.",
+ "C05": "Bounded model checking: the deadline formula for every 16-bit T and unit flag; firing exactly at tick arrival+T+1 by driving the real sweeps second by second (T in 1..12; 1..64 thorough) with grants and late unlocks at every tick; long-wait buckets with several entries; millisecond waits at listed values, with the arrival at 0/150/850/999 ms inside the server's second; the unlock-then-wait path.",
+ "C06": "Bounded model checking: deadline formula for every 16-bit E and flag; expiry exactly at tick grant+E+1 with one EXPRIED, capacity freed and the queue served, period restart on re-lock, unlimited never ends; update window for every E1, E2; long-expiry buckets; millisecond holds at listed values and arrival offsets; holds granted from the wait queue (period starts at the grant).",
+ "C07": "Bounded model checking of the real persist-and-reload chain over the file model: for every 16-bit expiry, unit and persistence-timing flag, Count/Rcount, depth 1..2 and five outage lengths exactly the persisted still-live hold comes back with the same terms and a deadline within one unit plus a second; histories of re-entrant holds; values; several holders with their own timing; millisecond and share-of-expiry holds; values of holds that follow a run-out valued hold.",
+ "C08": "Bounded model checking of the real loader over a file model: a log of <=3 records (5 thorough) with symbolic bytes cut at every byte, with and without values, with the read buffer scaled down so that every record straddles it; the log position read from a torn tail; a record appended after the restart checked on the second restart (recorded finding for cuts inside a record).",
+ "C09": "Bounded model checking of the in-process kernel of replication: the ring under every push/pop/resume program of 6 operations (8 thorough); what the leader writes to its log files is what it publishes on the ring (with rotation); a follower-state instance applying the ring converges to the leader's holds, depths and values; the follower's side of the handshake (real ReplicationClient.InitSync against a scripted leader: ERR_NOT_FOUND resynchronises from scratch, a cut before the first record starts over) and the leader's file phase (real sendFiles stops exactly at the announced position).",
+ "C10": "Bounded model checking of the in-process kernel: a non-leader refuses every client LOCK/UNLOCK with STATE_ERROR and changes nothing, also through the real binary protocol object with any flag byte; it applies the leader's stream identically to the leader, keeps 1..3 replicated holds past their deadline, and after a demotion does not grant the client requests it still has queued. Two recorded findings.",
+ "C11": "Bounded model checking of the acknowledgement protocol on the leader: SUCCED exactly when the configured number of acknowledgements has arrived, never before, exactly once; LOCK_ACK_WAITING for the same LockId (and for an unlock-first that would hit the pending hold) meanwhile; on a negative ack or the wait timing out exactly one error reply, hold removed, value operation undone, the queued request served; all <=4-event sequences (5 thorough).",
+ "C12": "Bounded model checking of the election kernel: acceptor rules for every number and log position (self and remote handlers); two overlapping candidacies never both get this acceptor's commit (all 5-delivery sequences, 7 thorough); the candidate's choice in DoVote; the order of log positions against the real log writer with rotation; the candidate's own acceptor state while a foreign candidacy is delivered during its proposal / before its commit round. One recorded finding (accepted commits are not persisted).",
+ "C13": "Bounded model checking for crash freedom: every implicit Go run-time check in the code reached from a connection's input is an obligation: value frames on LOCK/UNLOCK, any 64-byte binary frame, programs of 3 binary frames (4 thorough) and 3 text commands, every registered text key-value/keyspace/session command with <=3-4 arguments, the text parser on arbitrary bytes, the buffered reply path, the CALL LIST_* handlers with any db_id, the connection's stream buffer under every 4-read program. 17 crash sites in the value-operation code are recorded findings; a panic at any other site is a violation.",
+ "C14": "Bounded model checking of the real codec functions: all 2^512 input buffers per command type are one symbolic execution; round trip and README offsets; text parser under every 3-read chunking; the server's hand-inlined decoder/encoder against the protocol package; key/id normalisation for every string of 0..64 bytes; text LOCK options for all digit strings; every result code rendered and parsed back.",
+ "C15": "Bounded differential model checking: after each of 3 value operations (4 thorough; with and without property blocks; also inside a PIPELINE frame, on unlock, re-lock and refused requests) the stored value equals a reference interpreter's and the reply carries the value from before; every 3-command program of 16 Redis-style text commands (4 thorough) against a map. Recorded findings for EXPIRE/PERSIST on absent keys, SETNX-created keys and INCR on SET values.",
+ "C16": "Bounded model checking / fault enumeration inside the executor: the real compaction over a file model; every directory image after each of its mutations recovered by a fresh instance; a second compaction; a compaction after an interrupted one; updated terms (also of priority holds) and values across compaction. Recorded findings: inputs removed before the rename, the two-step rename, values of released holds.",
+ "C17": "Bounded model checking: STATE counters and reply LCount/LRCount compared with a census of the real structures after one arbitrary step from every state of the bounded shape; drain scenarios: keys on the fast and the ordinary key table with values, re-entrant holds in the long-expiry table, shared keys released out of order.",
+ "C18": "Bounded model checking of the disconnect kernel through the real protocol objects: wills run only at Close, exactly once, in order (binary, text, and the ADMIN text sub-session; 0..6 wills; Close must return); holds stay; queued requests end without leaking; a reply for a closed client goes to the connection that speaks for the same client id or nowhere (symbolic ids, repeated INIT, two reconnects, a connection that never announced an id, a reply routed during another connection's will drain).",
+ "C19": "Bounded model checking of the composition 'client primitive builds the command' o 'server admits it': Lock exclusive, RLock re-entrant for its holder only, Semaphore(n)/MaxConcurrentFlow(n) admit exactly n (symbolic n; Release and ReleaseN), RWLock one writer or many readers (plain and ...WithData calls), Event as a boolean under every 4-op program, PriorityLock hand-over by priority.",
+ "C20": "Bounded symbolic execution of the real queue code against slice / stable-priority-queue models for every operation program up to the stated length: LockQueue and its two copies, the ring and priority ring, the per-key wait queue (both constructor modes, Reset) and holder queue pre-filled up to 300 entries, the long-wait bucket queue with its restructuring (scaled geometry).",
+})
+LEVEL_NOTE.update({
+ "C01": "Trusted: the symgo executor (validated per run by native replay of sampled path witnesses), z3. Single-threaded critical sections only (no interleaving of two requests inside LockDB.Lock or in the lock-free key table); one recorded finding (Count 0xffff on both sides is unlimited).",
+ "C02": "Trusted: symgo, z3. Single-threaded critical sections; symbolic shapes have <=3 holders (4 thorough); show/update flags excluded here (C06). One recorded finding (unlock-first takes the hold's Rcount).",
+ "C03": "Trusted: symgo, z3. No sockets: connections are in-memory net.Conn stubs behind the real protocol objects; require-ack excluded (C11); no interleaving of two threads (the text connection's request filter is written and read by different goroutines in the server).",
+ "C04": "Trusted: symgo, z3. Symbolic shapes have <=2 queued entries (3 thorough) plus the step's; two recorded findings (no wake-up after the head left the queue / after a holder's terms changed).",
+ "C05": "Millisecond harnesses have no native replay (the sweeper is a sleeping goroutine natively; the executor runs the recorded goroutine at its slot time). One shard, one key. Sweeper latency is outside.",
+ "C06": "As C05; the shortening clause (10 s) is outside. One recorded finding (a millisecond hold below 3 s is not moved by a re-lock).",
+ "C07": "File model: full reads and whole-buffer writes. Rotation and compaction are C16's; the AofChannel goroutine / 200 ms timer are replaced by explicit drains. Two recorded findings (later holders inherit the first holder's persistence timing; a re-entrant level whose own record ran out is dropped).",
+ "C08": "File model; real disks, fsync and page-cache reordering are outside; both files torn at once is outside. LoadAofFiles is driven directly (not Aof.LoadAndInit). Three recorded findings of one defect (a torn tail is appended to).",
+ "C09": "Kernel only: no sockets and no second process; the handshake harnesses script the peer's bytes; file transfer with files, the follower's replay/append/re-publish goroutines and reconnect patterns beyond the two scripted ones are outside; concurrent writers inside PushLock (seed C09d) cannot be decided without a scheduler.",
+ "C10": "Kernel only: Server.checkProtocol/handle choosing the forwarding wrapper, the TCP connection to the leader and the relay of frames by Transparency*ServerProtocol are outside (no sockets in the executor).",
+ "C11": "Reading of 'written to the leader's own log': handed to the log by Aof.PushLock; the flush report and each follower's acknowledgement count alike towards the configured number. Follower side and duplicate frames of one follower are outside. One recorded finding (never-persist first holder disables the ack requirement for later holders).",
+ "C12": "Kernel only: ArbiterClient.Request is stubbed (the two candidate harnesses and C12_vote have no native replay); 3..5-process clusters and the kill -9 experiment are outside; log positions more than 2^31 files apart are outside.",
+ "C13": "Trusted: symgo, z3. Frames <= 8 bytes; arguments from a small alphabet with symbolic ASCII bytes; admin text commands, CALL handlers other than LIST_* and the arbiter's, malformed protobuf bodies are outside; paths that would allocate more than 300 distinct sizes are cut (listed as unsupported in the evidence).",
+ "C14": "Trusted: symgo, z3 (cvc5 --solve-bv-as-int=sum for the digit-string harnesses). crypto/md5 is an uninterpreted function. 64 KiB arguments, the client-side text protocol and text value options on LOCK are outside.",
+ "C15": "Payloads <= 3 bytes, arrays <= 3 items; nested pipelines, EXECUTE and kind-mismatched operations are unasserted.",
+ "C16": "Crash images exist only in the executor's file model (C16_crash / C16_stale have no native replay; C16_renamefail and C16_staletmp are native twins). Appends concurrent with the compaction and the start-up race of LoadAndInit are outside.",
+ "C17": "Trusted: symgo, z3. One shard; free collectors outside.",
+ "C18": "Kernel only: how the OS reports a closed socket, close racing a pending grant and re-entrant Close are outside; the Transparency wrappers' Close is outside.",
+ "C19": "Kernel only: TCP transport, request/response matching, reconnects, forwarding through a follower and goroutine concurrency are outside (calls are sequential; a call that would block returns to the harness).",
+ "C20": "Trusted: symgo. Programs longer than the bound and constructor parameters above 3 are outside the claim; the long-wait bucket is checked at a scaled-down geometry (4 node slots for 64).",
+})
